@@ -89,8 +89,10 @@ func (a *Allocation) GetPermission(addr net.Addr) *Permission {
 	return a.permissions[ipnet.FingerprintAddr(addr)]
 }
 
-// AddPermission adds a new permission to the allocation.
-func (a *Allocation) AddPermission(perms *Permission) {
+// AddPermission adds a new permission to the allocation, or refreshes the one
+// it has for that peer. It reports ErrAllocationClosed, and adds nothing, when
+// the allocation has ended.
+func (a *Allocation) AddPermission(perms *Permission) error {
 	fingerprint := ipnet.FingerprintAddr(perms.Addr)
 
 	// Lookup, refresh and insert are one critical section: the expiry of a
@@ -102,7 +104,7 @@ func (a *Allocation) AddPermission(perms *Permission) {
 		existedPermission.refresh(perms.timeout)
 		a.permissionsLock.Unlock()
 
-		return
+		return nil
 	}
 
 	// Arm the lifetime timer before the permission becomes visible: Close and
@@ -114,7 +116,7 @@ func (a *Allocation) AddPermission(perms *Permission) {
 	if a.isClosed() {
 		a.permissionsLock.Unlock()
 
-		return
+		return ErrAllocationClosed
 	}
 	a.permissions[fingerprint] = perms
 	perms.start(perms.timeout)
@@ -127,6 +129,8 @@ func (a *Allocation) AddPermission(perms *Permission) {
 				a.RelayAddr, u.IP)
 		}
 	}
+
+	return nil
 }
 
 // RemovePermission removes the net.Addr's fingerprint from the allocation's permissions.
@@ -226,9 +230,7 @@ func (a *Allocation) AddChannelBind(chanBind *ChannelBind, channelLifetime, perm
 		// Channel binds also refresh permissions. The binding is done with:
 		// the permission (and the OnPermissionCreated callback, when it had
 		// run out) needs no hold on the bindings, which the relay reads.
-		a.AddPermission(NewPermission(peer, a.log, permissionLifetime))
-
-		return nil
+		return a.AddPermission(NewPermission(peer, a.log, permissionLifetime))
 	}
 
 	// Add this channel. (As before cfa7daa, the events of a new binding are
@@ -243,8 +245,9 @@ func (a *Allocation) AddChannelBind(chanBind *ChannelBind, channelLifetime, perm
 	a.channelBindings = append(a.channelBindings, chanBind)
 	chanBind.start(channelLifetime)
 
-	// Channel binds also refresh permissions.
-	a.AddPermission(NewPermission(chanBind.Peer, a.log, permissionLifetime))
+	// Channel binds also refresh permissions. (The allocation is not closed,
+	// or Close is waiting for this lock to remove the binding.)
+	_ = a.AddPermission(NewPermission(chanBind.Peer, a.log, permissionLifetime))
 
 	if a.eventHandler.OnChannelCreated != nil {
 		a.eventHandler.OnChannelCreated(a.fiveTuple.SrcAddr, a.fiveTuple.DstAddr,
